@@ -95,6 +95,10 @@ def run_parse_cases(run, cases, witness_for=None, timeout=900, mem_gb=12, tv=Tru
     vlib.build_units([c.unit for c in cases], jobs=jobs)
     for c in cases: run.add_unit(c.unit, desc='grammar %s, input length %d, options ws=%d nl=%d verbose=%d' % (c.g.name, c.L, c.ws, c.nl, c.verbose))
     good = [c for c in cases if c.unit.ok]
+    for c in good:
+        if c.mode == 'writeset' and any('cxa_guard' in e for e in c.unit.info.get('externals', [])):
+            run.violation('unit %s: the parse path contains a function-local static (guarded initialisation, __cxa_guard_*): shared mutable state' % c.name,
+                          {'query': 'static_' + c.name, 'unit': c.g.name, 'grammar': c.g.name, 'L': c.L, 'opts': [c.ws, c.nl, c.verbose], 'input_hex': '', 'asserts': c.asserts})
     if tv:
         with ThreadPoolExecutor(max_workers=jobs or vlib.NCPU) as ex:
             tvs = list(ex.map(lambda c: c.translation_validation(run.seed), good))
